@@ -265,9 +265,12 @@ Section WithChunks.
     ++ deletions CAccChunk (s_marked_a sd) (s_jar_a sd) (length (s_achunks sd))
     ++ deletions CRefChunk (s_marked_r sd) (s_jar_r sd) (length (s_rchunks sd)).
 
+  (* the chunk cookies a Save has written count, for a later Save of the same request, like the ones the
+     request arrived with (savedChunks in session.go): the ones a token set meanwhile no longer uses are deleted *)
   Definition after_save (sd : sdata) : sdata :=
     mkSd (s_main sd) (s_acc sd) (s_ref sd) (s_achunks sd) (s_rchunks sd)
-         (s_jar_a sd) (s_jar_r sd) false false (s_live sd).
+         (Nat.max (s_jar_a sd) (length (s_achunks sd))) (Nat.max (s_jar_r sd) (length (s_rchunks sd)))
+         false false (s_live sd).
 
   (* Clear(r, w) with a response writer: drop every value, Save, forget the request *)
   Definition clear (sd : sdata) : sdata * list setcookie :=
